@@ -59,6 +59,9 @@ def index_docs():
         {"0": leaf(), "1": leaf(), "-1": leaf(), "a": [leaf(), leaf()]},
         [{"1": leaf(), "01": leaf()}, [leaf(), [leaf()]]],
         {"a": {"1": {"1": leaf()}}, "1": [leaf(), {"0": leaf()}]},
+        # members whose names are another member's name behind the non-standard '~' / '#' pointer prefixes
+        {"~a": leaf(), "a": leaf(), "#a": leaf(), "~0": {"x": leaf()}, "0": {"x": leaf()}},
+        {"#": leaf(), "~": leaf(), "": leaf(), "#1": [leaf()], "1": [leaf()], "~~a": leaf()},
     ]
 
 
